@@ -144,6 +144,13 @@ def vtty_tests():
     tty.select([], [], [], 1e-17)
     if not tty.clock > t0:
         fails.append("vtty: an expired select(1e-17) did not advance the clock")
+    # eager terminal: the reply may already be queued when tcdrain() returns (choice j > 0), never by default
+    for prefix, want in (((), b""), ((1,), b"\x1b[?62;4c")):
+        tty = world.VTty(chooser=explore.Chooser(prefix), eager=True)
+        tty.write(world.TTY_FD, b"\x1b[c")
+        tty.tcdrain(world.TTY_FD)
+        if bytes(tty.inq) != want:
+            fails.append(f"vtty eager {prefix}: queued {bytes(tty.inq)!r} want {want!r}")
     fails += vstdout_tests()
     return fails
 
